@@ -10,7 +10,7 @@ META = {
             "space (the field ends at the next space, whatever follows); the quoted-string style followed by a double quote, the "
             "mime-blob style followed by a closing bracket and the shell style followed by a space are read back by a reference "
             "reader to exactly the original C string and exactly the rest (delimited AND reversible, any continuation); the URL style "
-            "is undone by rfc1738_unescape (C31 theorem). For EVERY logformat (literal text without LF, codes under any of the five "
+            "is undone by RFC 3986 percent-decoding. For EVERY logformat (literal text without LF, codes under any of the five "
             "quoting styles incl. the style inherited from surrounding quote/bracket characters as Format::Token::parse tracks it) the "
             "record assembled by Format::assemble + SquidCustom contains exactly one LF, its last byte. REFUTED for the bare mime-blob "
             "style (space passes: `%[un` of the built-in squid format is split by a user name containing a space - known finding "
